@@ -8,7 +8,7 @@ use async_std::io::{prelude::SeekExt, Cursor, Read, Seek, SeekFrom, Write};
 use async_std::sync::{Arc, RwLock};
 use async_trait::async_trait;
 use futures::task::{Context, Poll};
-use futures::{Stream, StreamExt};
+use futures::Stream;
 use std::collections::hash_map::Entry;
 use std::collections::HashMap;
 use std::fmt;
@@ -37,10 +37,11 @@ impl AsyncMemoryFS {
         }
     }
 
-    async fn ensure_has_parent(&self, path: &str) -> VfsResult<()> {
+    /// Checks for the parent in the (already locked) file map, so that check and update are atomic
+    fn ensure_has_parent(files: &HashMap<String, AsyncMemoryFile>, path: &str) -> VfsResult<()> {
         let separator = path.rfind('/');
         if let Some(index) = separator {
-            if self.exists(&path[..index]).await? {
+            if files.contains_key(&path[..index]) {
                 return Ok(());
             }
         }
@@ -208,8 +209,9 @@ impl AsyncFileSystem for AsyncMemoryFS {
     }
 
     async fn create_dir(&self, path: &str) -> VfsResult<()> {
-        self.ensure_has_parent(path).await?;
-        let map = &mut self.handle.write().await.files;
+        let mut handle = self.handle.write().await;
+        Self::ensure_has_parent(&handle.files, path)?;
+        let map = &mut handle.files;
         let entry = map.entry(path.to_string());
         match entry {
             Entry::Occupied(file) => {
@@ -242,9 +244,9 @@ impl AsyncFileSystem for AsyncMemoryFS {
     }
 
     async fn create_file(&self, path: &str) -> VfsResult<Box<dyn Write + Send + Unpin>> {
-        self.ensure_has_parent(path).await?;
         let content = Arc::new(Vec::<u8>::new());
         let mut handle = self.handle.write().await;
+        Self::ensure_has_parent(&handle.files, path)?;
         if let Some(existing) = handle.files.get(path) {
             ensure_file(existing)?;
         }
@@ -307,10 +309,15 @@ impl AsyncFileSystem for AsyncMemoryFS {
     }
 
     async fn remove_dir(&self, path: &str) -> VfsResult<()> {
-        if self.read_dir(path).await?.next().await.is_some() {
+        let mut handle = self.handle.write().await;
+        let directory = handle.files.get(path).ok_or(VfsErrorKind::FileNotFound)?;
+        if directory.file_type != VfsFileType::Directory {
+            return Err(VfsErrorKind::Other("Not a directory".into()).into());
+        }
+        let prefix = format!("{}/", path);
+        if handle.files.keys().any(|candidate| candidate.starts_with(&prefix)) {
             return Err(VfsErrorKind::Other("Directory to remove is not empty".into()).into());
         }
-        let mut handle = self.handle.write().await;
         handle
             .files
             .remove(path)
